@@ -39,7 +39,7 @@ Judge(t) ==
 TraceInit ==
     /\ ix \in 1..Len(Traces)
     /\ kind = Traces[ix].kind
-    /\ case = 0 /\ key = "" /\ toks = <<>>
+    /\ case = 0 /\ key = "" /\ toks = <<>> /\ strict = TRUE
 
 Emit ==
     /\ case = 0
@@ -47,7 +47,7 @@ Emit ==
          /\ PrintT(<<"VERDICT", Traces[ix].tid, v[1], v[2]>>)
          /\ toks' = v
     /\ case' = 1
-    /\ UNCHANGED <<kind, ix, key>>
+    /\ UNCHANGED <<kind, ix, key, strict>>
 
 TraceSpec == TraceInit /\ [][Emit]_vars
 =============================================================================
